@@ -20,7 +20,7 @@ import (
 )
 
 type PreOp struct {
-	Kind string   `json:"kind"`        // enc | dec | unreg | swapsvc | encfail | procs | slogdebug | setenv
+	Kind string   `json:"kind"`        // enc | dec | encdec | unreg | swapsvc | encfail | procs | slogdebug | setenv
 	K    int      `json:"k,omitempty"` // procs: GOMAXPROCS for the case; encfail: bytes the foreign part writes before failing
 	Type string   `json:"type,omitempty"`
 	V    *Value   `json:"v,omitempty"`
@@ -46,6 +46,13 @@ func runPrelude(pre []PreOp) func() {
 			obj := regByName[op.Type].New()
 			buf := bytes.NewBuffer(append([]byte{}, op.W...))
 			_, _, _ = safely(func() error { return DecodeAny(obj, buf) })
+		case "encdec": // a pooled message object: first sent (encoded), then reused to receive another message of the type
+			obj := ToStruct(op.V)
+			var buf bytes.Buffer
+			_, _, _ = safely(func() error { return EncodeAny(obj, &buf) })
+			scribble(&buf)
+			in := bytes.NewBuffer(append([]byte{}, op.W...))
+			_, _, _ = safely(func() error { return DecodeAny(obj, in) })
 		case "procs":
 			old := runtime.GOMAXPROCS(max(1, op.K))
 			undo = append(undo, func() { runtime.GOMAXPROCS(old) })
@@ -134,7 +141,7 @@ func genPrelude(rt *rapid.T, focus string, registry bool) ([]PreOp, int) {
 		case 4:
 			tn = rapid.SampledFrom(TypeNames).Draw(rt, "pre.type")
 		}
-		kinds := []string{"enc", "enc", "enc", "dec", "dec", "dec", "env", "encfail"}
+		kinds := []string{"enc", "enc", "enc", "dec", "dec", "dec", "env", "encfail", "encdec", "encdec"}
 		if registry {
 			kinds = append(kinds, "unreg")
 		}
@@ -151,6 +158,10 @@ func genPrelude(rt *rapid.T, focus string, registry bool) ([]PreOp, int) {
 			o := GenOpts{Mode: Arbitrary, MaxList: 300, BigProb: 30}
 			v, _ := GenValue(rt, tn, o)
 			ops = append(ops, PreOp{Kind: "enc", Type: tn, V: v})
+		case "encdec":
+			v, _ := GenValue(rt, tn, GenOpts{Mode: Arbitrary, MaxList: 50, BigProb: 0})
+			wv, _ := GenValue(rt, tn, GenOpts{Mode: Wire, MaxList: 50, BigProb: 0})
+			ops = append(ops, PreOp{Kind: "encdec", Type: tn, V: v, W: Render(wv, nil).Bytes})
 		case "dec":
 			o := GenOpts{Mode: Wire, MaxList: 70000, BigProb: 25, HugeProb: 250}
 			v, _ := GenValue(rt, tn, o)
